@@ -64,7 +64,7 @@ def main():
         if not a.skip_suite:
             env = dict(os.environ, PYTHONPATH=f"{wt}/src")
             suite = sh(f"{PY} -m pytest -q -p no:cacheprovider 2>&1 | tail -1", cwd=wt, env=env)[1].strip()
-            if not re.search(r"1 failed, 1433 passed", suite):
+            if not (re.search(r"\b1434 passed", suite) and "failed" not in suite):
                 print(f"[{a.nid}] suite changed: {suite}")
                 return 3
         res = run_checks(wt)
